@@ -47,6 +47,13 @@ type NCServer struct {
 	// may always share a read with later bytes since the read loop was repaired (fix 20a8fa8).
 	HelloEchoMayShareRead bool
 
+	// ReplyAfterReturn: a request is answered only once the server has consumed at least one byte
+	// that follows its end-of-message marker (the return the client types after it), as a
+	// line-oriented peer behind a pty does; on an echoing transport the echo of that return then
+	// precedes the reply.
+	ReplyAfterReturn bool
+	deferred         [][]byte
+
 	OnRequest func(r NCRequest) []NCAction
 
 	Pipe *Pipe
@@ -128,6 +135,15 @@ func (s *NCServer) Input(b []byte) []byte {
 
 	s.in = append(s.in, b...)
 
+	if len(s.deferred) > 0 && len(b) > 0 {
+		for _, framed := range s.deferred {
+			s.spans = append(s.spans, [2]int{len(out), len(out) + len(framed)})
+			out = append(out, framed...)
+		}
+
+		s.deferred = nil
+	}
+
 	if !s.GotHello {
 		i := bytes.Index(s.in, []byte(EOM))
 		if i < 0 {
@@ -171,6 +187,12 @@ func (s *NCServer) Input(b []byte) []byte {
 					time.Sleep(d)
 					p.InjectMessage(framed)
 				}()
+
+				continue
+			}
+
+			if s.ReplyAfterReturn && len(bytes.TrimLeft(s.in, "\n")) == 0 && len(s.in) == 0 {
+				s.deferred = append(s.deferred, framed)
 
 				continue
 			}
